@@ -100,6 +100,12 @@ def run(ctx):
         res = results[c["fn"]]
         fam = c["family"]
         stats["by_family"][fam] = stats["by_family"].get(fam, 0) + 1
+        if not res["ok"] and c.get("expect") == "reject" and res["error"].startswith("GuppyError"):
+            stats["rejected_by_compiler"] += 1
+            stats["rejected_as_expected"] = stats.get("rejected_as_expected", 0) + 1
+            continue
+        if res["ok"] and c.get("expect") == "reject":
+            c["accepted_unexpectedly"] = True
         if not res["ok"]:
             stats["rejected_by_compiler"] += 1
             c["rejected"] = res["error"]
@@ -143,6 +149,11 @@ def run(ctx):
                      "region": reg, "sym": L.SENTINEL_N})
 
     # ---- model tokens (one Coq evaluation)
+    for c in work:
+        if c.get("model") is None:      # families compared semantically only (no hand-written sequence)
+            c["no_model"] = True
+            c["model"] = L.coq_seq(c["region"]["instrs"], c.get("sym"))
+            c["outs"] = L.coq_nats(c["region"]["outs"])
     tok_v = COQ_HEAD + "Definition toks : list (list string) := [\n" + ";\n".join(
         f"seq_tokens ({c['model']}) ({c['outs']})" for c in work) + "].\nEval vm_compute in toks.\n"
     comp_ns = sorted({c["params"]["n"] for c in work if c["family"] == "comp"})
@@ -171,7 +182,9 @@ def run(ctx):
                     bad = True
                     c["comp_wiring"] = {"leaves": ex["leaves"], "init_tokens": ex["init_tokens"], "expected_init": want_init,
                                         "loop_vars": ex["loop_vars_from"]}
-            if bad:
+            if c.get("no_model"):
+                stats["semantic_only"] = stats.get("semantic_only", 0) + 1
+            elif bad:
                 diffs.append(c)
                 stats["syntactic_diff"] += 1
             else:
@@ -226,6 +239,12 @@ def run(ctx):
                 if impl_r == [2]:
                     unevaluable.add(c["id"])
                     continue
+                # family-independent exit invariant: arrays that came in whole go out whole
+                if c["family"] not in ("next_some", "comp") and impl_r[:1] == [0] and not any(L.has_lent(v) for v in inputs):
+                    stats["exit_invariant_checked"] = stats.get("exit_invariant_checked", 0) + 1
+                    if any(L.has_lent(v) for v in L.decode(impl_r)[1]):
+                        sem_fail.append((c, inputs, "emitted:cell-left-lent-at-exit", impl_r, want, model_r))
+                        continue
                 if not ok_spec(impl_r):
                     sem_fail.append((c, inputs, "emitted", impl_r, want, model_r))
                 elif not ok_spec(model_r):
@@ -293,6 +312,19 @@ def run(ctx):
              "or: echo '{\"source\": <module text>, \"funcs\": [\"%s\"]}' | /venv/bin/python /verif/props/C19/impl_seq.py" % (c["fn"], c["fn"]))
         return t
 
+    # ---- static, family-independent borrow/return balance of every compared basic block
+    balance_fail = {}
+    for c in work:
+        if c["id"].startswith("iter_") or c["family"] == "comp" or "n_inputs" not in c["region"]:
+            continue
+        stats["balance_checked"] = stats.get("balance_checked", 0) + 1
+        pb = L.balance(c["region"])
+        if pb:
+            balance_fail[c["id"]] = pb
+
+    def prog_key(c):
+        return "prog:" + c["family"] + ":" + c.get("src_template", c["src"])
+
     for c in diffs:
         witnessed = any(f[0] is c for f in sem_fail)
         if witnessed:
@@ -309,14 +341,27 @@ def run(ctx):
         ctx.report(f"struct:{c['family']}:{json.dumps(c['params'], sort_keys=True)}", "correspondence", what,
                    {"program": c["src"], "params": c["params"], "replay": replay_text(c)}, found_input=False)
     reported = set()
+    for c in work:
+        if c["id"] in balance_fail and not any(f[0] is c for f in sem_fail):
+            ctx.report(prog_key(c), "correspondence", f"{c['family']}: unbalanced borrow/return in the emitted block",
+                       {"program": c["src"], "params": c["params"], "balance": balance_fail[c["id"]],
+                        "emitted_index_events": L.index_events(c["region"]), "replay": replay_text(c)}, found_input=False)
+        elif c.get("accepted_unexpectedly") and not any(f[0] is c for f in sem_fail):
+            ctx.report(prog_key(c), "counterexample", f"{c['family']}: a by-value read through a subscript of a non-copyable element was ACCEPTED (expected: rejected)",
+                       {"program": c["src"], "params": c["params"], "emitted_index_events": L.index_events(c["region"]),
+                        "replay": replay_text(c)})
     for c, inputs, side, got, want, other in sem_fail:
         key = f"sem:{c['family']}:{json.dumps(c['params'], sort_keys=True)}:{side}"
+        if c["family"] in L.ELEM:
+            key = prog_key(c)       # known findings are keyed by the exact program text
         if key in reported:
             continue
         reported.add(key)
         ctx.report(key, "counterexample",
                    f"{c['family']}: the {side} op sequence violates list semantics on the abstract borrow-array machine",
                    {"program": c["src"], "params": c["params"], "inputs": show(inputs),
+                    "expected_compiler_verdict": c.get("expect", "accept"), "accepted_unexpectedly": bool(c.get("accepted_unexpectedly")),
+                    "balance": balance_fail.get(c["id"]),
                     "expected": "panic (no array produced)" if want == L.PANIC else show(want),
                     "observed_encoded": got, "other_side_encoded": other,
                     "encoding": "[0,k,vals..]=Ok; [1,code]=Panic (1 index-oob unwrap, 2 op oob, 3 already borrowed, 4 cell full, 5 some borrowed, 6 not all borrowed, 7 unpack); val: [0,z] int, [2,q] resource, [6,len,(0|1 val)..] array, [4,tag,len,..] sum, [5,len,..] tuple",
